@@ -28,6 +28,7 @@ import (
 	"strconv"
 	"strings"
 	"sync"
+	"sync/atomic"
 	"time"
 
 	"github.com/grailbio/base/log"
@@ -929,7 +930,26 @@ var probeFunc = bigslice.Func(func() bigslice.Slice {
 	return bigslice.Const(1, []int{1, 2, 3})
 })
 
+// probeBadFunc can be invoked once per probe (by the driver, in Session.Run);
+// the next invocation, i.e. its compilation on the worker, panics.
+var probeBadCalls int32
+
+var probeBadFunc = bigslice.Func(func() bigslice.Slice {
+	if atomic.AddInt32(&probeBadCalls, 1) > 1 {
+		panic("verif c14: this Func cannot be compiled on a worker")
+	}
+	return bigslice.Const(1, []int{1, 2, 3})
+})
+
+// probeBigFunc: one task asking for twice the procs of the probe's machines.
+var probeBigFunc = bigslice.Func(func() bigslice.Slice {
+	slice := bigslice.Const(1, []int{1, 2, 3})
+	return bigslice.Map(slice, func(i int) int { return i }, bigslice.Procs(4))
+})
+
 var runModes = []struct{ mode, exit string }{
+	{"compile-fail", "(XCompileFatal true)"},
+	{"big-procs", "(XRan DOk)"},
 	{"rerun", "(XRan DOk)"},
 	{"run-error", "(XRan DRemote)"},
 	{"no-location", "XNoLocation"},
@@ -980,7 +1000,15 @@ func runCase(d Desc) vf.Case {
 				runtime.Gosched()
 			}
 		}
-		p, err = exec.VerifC14ProbeRun(context.Background(), sys, probeFunc, d.Mode, 1.0, settle)
+		var other []*bigslice.FuncValue
+		switch d.Mode {
+		case "compile-fail":
+			atomic.StoreInt32(&probeBadCalls, 0)
+			other = append(other, probeBadFunc)
+		case "big-procs":
+			other = append(other, probeBigFunc)
+		}
+		p, err = exec.VerifC14ProbeRun(context.Background(), sys, probeFunc, d.Mode, 1.0, settle, other...)
 	}()
 	if failed || err != nil {
 		// the probe itself did not run: an observation no model exit explains
@@ -988,8 +1016,10 @@ func runCase(d Desc) vf.Case {
 		c.Kind = "run/aborted"
 		c.Sig = "C14/run-probe-aborted"
 	}
-	if p.LoadAfter != p.LoadBefore {
+	if p.LoadAfter > p.LoadBefore {
 		c.Sig = "C14/run-" + d.Mode + "-leaks-procs"
+	} else if p.LoadAfter < p.LoadBefore && c.Kind != "run/aborted" {
+		c.Sig = "C14/run-" + d.Mode + "-returns-too-many-procs"
 	}
 	c.Term = vf.App("CRun", exit, vf.Z(int64(p.Procs)), vf.Z(int64(p.Machprocs)), vf.Z(int64(p.LoadBefore)), vf.Z(int64(p.LoadAfter)))
 	c.Nontriv = vf.Hash(c.Term)
@@ -1062,7 +1092,7 @@ func main() {
 			out.Add(runCase(Desc{Kind: "run", Mode: m.mode}))
 		}
 		out.Notes = append(out.Notes,
-			"Run's exit paths: (*bigmachineExecutor).Run is called directly on a one-machine session for four exits (task ran ok, Worker.Run error, dependency without location, failed combiner commit); the machine's taskProcs is read before and after",
+			"Run's exit paths on a one-machine session: a Func that fails to compile on the worker and a task with Procs above the machine's task procs (clamped) are run through the session; (*bigmachineExecutor).Run is called directly for four more exits (task ran ok, Worker.Run error, dependency without location, failed combiner commit); the machine's taskProcs is read before and after",
 			"live manager driven in lock-step; quiescence from runtime.Stack(all); System.Start gated by the driver so that deliveries possible before a batch comes up are taken first",
 			"ProbationTimeout is an event: the variable is set to -1h while Do is parked and Do is poked with a no-op cancel, so every machine on probation times out; otherwise it is 1h")
 	}
